@@ -101,12 +101,12 @@ class Parser:
         context._titles = excel.get_titles()
         context._sheets_size = excel.get_sheets_size()
 
-        if self._entrypoint_cell:
-            # a copy: translation resolves the cell's identifiers and stores the workbook's text in the cell object,
-            # and neither may leak into the next translation (possibly of another workbook)
-            CellTranslator.translate(replace(self._entrypoint_cell), excel, context)
-        else:
-            CellTranslator.translate_file(excel, context)
+        try:
+            self._translate_cells(excel, context)
+        except RecursionError as error:
+            # the translator descends recursively into referenced cells and nested expressions
+            raise E2PyclParserException('The dependency chain or the nesting of formulas is too deep to translate') \
+                from error
 
         self._translation = context.build_class()
 
@@ -115,6 +115,14 @@ class Parser:
         self._safety_check_has_been_changed = False
 
         return self
+
+    def _translate_cells(self, excel: Excel, context: Context):
+        if self._entrypoint_cell:
+            # a copy: translation resolves the cell's identifiers and stores the workbook's text in the cell object,
+            # and neither may leak into the next translation (possibly of another workbook)
+            CellTranslator.translate(replace(self._entrypoint_cell), excel, context)
+        else:
+            CellTranslator.translate_file(excel, context)
 
     def get_translation(self) -> str:
         """
